@@ -40,4 +40,5 @@ Virt = Struct("Virt", NS, emb="basic.emb", fields=[
     V("alias_x", lambda f: f.x, writable=("alias", "x")),
 ])
 
+Dyn.c20 = False       # array field: element-wise Equals needs loop invariants, not unrolling (not covered)
 ALL = {"Plain": Plain, "Cond": Cond, "Dyn": Dyn, "Virt": Virt}
